@@ -58,7 +58,7 @@ inductive Ev where
   | dd (eos : Bool)
   | dt
   | unmodelled (phase : Nat)                      -- the machine left the modelled fragment (never happens: see theorems)
-  deriving Repr
+  deriving DecidableEq, Repr
 
 structure St extends FState where
   phase : Nat := InitPhase
@@ -151,20 +151,16 @@ def deliver (c : Cfg) (s : St) : St :=
     if s.resp.isSome || s.cleaned || s.upRespReceived then { s with halted := true, blocked := true }
     else liftF s (sendHijack { s.toFState with upRespReceived := true } code false)
 
-/-- upstreamRequest.receiveHeaders → onUpstreamHeaders → appendHeaders(endStream) -/
+/-- upstreamRequest.receiveHeaders → onUpstreamHeaders → appendHeaders(endStream); endStream ends the stream -/
 def respHeaders (s : St) (r : Resp) : St :=
   if s.procDone || s.upstreamReset then s
-  else
-    let eos := !r.data && !r.trailers
-    let s := emit { s with procDone := eos } (.dh s.statusVar eos)
-    if eos then clean s else s
+  else if !r.data && !r.trailers then clean (emit { s with procDone := true } (.dh s.statusVar true))
+  else emit { s with procDone := false } (.dh s.statusVar false)
 
 def respData (s : St) (r : Resp) : St :=
   if s.procDone || s.upstreamReset then s
-  else
-    let eos := !r.trailers
-    let s := emit { s with procDone := eos } (.dd eos)
-    if eos then clean s else s
+  else if !r.trailers then clean (emit { s with procDone := true } (.dd true))
+  else emit { s with procDone := false } (.dd false)
 
 def respTrailers (s : St) : St :=
   if s.procDone || s.upstreamReset then s
@@ -224,5 +220,20 @@ abbrev fuel : Nat := taskLoopBound * (receiveLoopBound + 2)
 def final (c : Cfg) : St := run c fuel init
 
 def trace (c : Cfg) : List Ev := (final c).trace
+
+/-! ### vocabulary of the theorems about passes -/
+
+/-- scanning the trace from a cursor value: every receiver pass starts exactly at the cursor the previous pass left
+(`cursorAfter`: the index of its last filter if that one asked for re-match / re-choose, else 0) -/
+def resumeOK : Nat → List Ev → Prop
+  | _, [] => True
+  | cur, .rpass _ st invs :: r => st = cur ∧ resumeOK (cursorAfter invs) r
+  | cur, _ :: r => resumeOK cur r
+
+/-- the cursor after scanning a trace -/
+def cursorTrace : Nat → List Ev → Nat
+  | cur, [] => cur
+  | _, .rpass _ _ invs :: r => cursorTrace (cursorAfter invs) r
+  | cur, _ :: r => cursorTrace cur r
 
 end MosnVerif.Model.FilterMachine
